@@ -198,8 +198,13 @@ static void push_evt(m_mod_t *mod, evt_priv_t *evt) {
      * M_SRC_INTERNAL timer (meaning that batching time has elapsed),
      * run the pubsub callback!
      */
+    /*
+     * Batching by size disabled (len 0) while a batch timeout is set:
+     * only timed batching is effective.
+     */
+    const size_t batch_len = (mod->batch.len == 0 && mod->batch.timer.ns != 0) ? SIZE_MAX : mod->batch.len;
     if (force ||
-        m_queue_len(mod->batch.events) >= mod->batch.len) {
+        m_queue_len(mod->batch.events) >= batch_len) {
 
         /*
          * Avoid the user changing the list of batched events while parsing them,
